@@ -47,7 +47,7 @@ TASK_INVALID_COUNTER == 40307  TASK_INVALID_STATE == 40308
 PROMISE_NOT_FOUND == 40400  SCHEDULE_NOT_FOUND == 40401  LOCK_NOT_FOUND == 40402
 TASK_NOT_FOUND == 40403  RECV_NOT_FOUND == 40404
 PROMISE_EXISTS == 40900  SCHEDULE_EXISTS == 40901
-STORE_ERROR == 50004
+STORE_ERROR == 50004  MATCH_ERROR == 50002
 
 AlreadyStatus(state) ==
   CASE state = RESOLVED -> ALREADY_RESOLVED [] state = REJECTED -> ALREADY_REJECTED
